@@ -205,7 +205,7 @@ class GridMachineBase(Machine):
     PHYSICS = False
     OPS = ('ADD_BLOCK', 'DEL_BLOCK', 'ADD_CON', 'DEL_CON', 'ADD_ROCK', 'DEL_ROCK',
            'RENAME_ROCK', 'RENAME', 'REORDER', 'DEMOTE', 'CLEAN_ROCK', 'SET_ROCK', 'MINC',
-           'ADD_GRID', 'EMBED', 'PERSIST', 'CALC_CENTRES', 'INIT')
+           'ADD_GRID', 'EMBED', 'PERSIST', 'CALC_CENTRES', 'REORDER_BAD', 'ADD_BLOCK_SAME', 'INIT')
 
     @classmethod
     def knobs(cls, rng, tier):
@@ -308,8 +308,9 @@ class GridMachineBase(Machine):
 
     def verify(self, what, digits=False):
         ctx = self.ctx
-        if not self.PHYSICS:
-            check_structure(self.grid, getattr(self, 'alias_ok', None))
+        # (the physics of C09 is read off the ordered lists; they only mean something while
+        # lists, lookups and back-references describe one graph, so C09 evaluates I1-I4 too)
+        check_structure(self.grid, getattr(self, 'alias_ok', None))
         got = extract(self.grid)
         compare(self.model, got, self.PHYSICS, digits, what + ': ')
         # equivalent content confirmed: continue from the real object's own representation
@@ -621,6 +622,44 @@ class GridMachineBase(Machine):
             self.ctx.probes['reorder_reversed_connections'] += 1
         return 'r%d' % min(nrev, 2)
 
+    def op_REORDER_BAD(self, ch):
+        """reorder() with a connection the grid does not have (in either orientation) is refused
+        with an exception and must leave the grid as it was."""
+        g = self.grid
+        if len(g.connectionlist) < 2 or len(g.blocklist) < 2:
+            return False
+        rng = random.Random(H('reorderbad', ch[1]))
+        cn = [tuple(b.name for b in c.block) for c in g.connectionlist]
+        rng.shuffle(cn)
+        names = [b.name for b in g.blocklist]
+        ghost = None
+        for _ in range(20):
+            a, b = rng.choice(names), rng.choice(names)
+            if (a, b) not in g.connection and (b, a) not in g.connection:
+                ghost = (a, b)
+                break
+        if ghost is None:
+            return False
+        cn.insert(1 + ch[0] % len(cn), ghost)
+        try:
+            g.reorder(None, cn)
+        except (SimCrash, SimBudgetExceeded):
+            raise
+        except Exception:
+            self.ctx.probes['reorder_refused'] += 1
+            return 'refused'
+        raise Violation('I1.refused', 'reorder() accepted the connection %r which the grid does '
+                        'not have' % (ghost,))
+
+    def op_ADD_BLOCK_SAME(self, ch):
+        """Adding a block object the grid already holds changes nothing."""
+        g = self.grid
+        if not g.blocklist:
+            return False
+        blk = g.blocklist[ch[0] % len(g.blocklist)]
+        self.call(lambda: g.add_block(blk), 'add_block(block of the grid)')
+        self.ctx.probes['add_block_already_in_grid'] += 1
+
     def op_CALC_CENTRES(self, ch):
         """Block centres recomputed from the geometry the grid was generated from: whatever the
         current order of the blocks, every block keeps its own centre."""
@@ -677,6 +716,30 @@ class GridMachineBase(Machine):
             names, arg = [b.name for b in g.blocklist], None
         amax = 1.e25
         proc = [n for n in names if 0. < g.block[n].volume < amax]
+        if ch[3] % 8 == 7 and len(proc) >= 2 and not self.geo_valid:
+            # two of the blocks get names that differ only in the leading character, which the
+            # default matrix-block naming overwrites: their matrix blocks would share names
+            n1, n2 = proc[0], proc[-1]
+            twin = ('q' if n1[0] != 'q' else 'r') + n1[1:]
+            if twin not in g.block and canon_name(twin) == twin:
+                self.call(lambda: g.rename_blocks({n2: twin}, fix_blocknames=False),
+                          'rename_blocks')
+                mp = {n2: twin}
+                m = self.model
+                m.b = dict((mp.get(nm, nm), v) for nm, v in m.b.items())
+                newc = {}
+                for v in m.c.values():
+                    v = dict(v)
+                    v['first'], v['second'] = mp.get(v['first'], v['first']), \
+                        mp.get(v['second'], v['second'])
+                    v['dist'] = dict((mp.get(nm, nm), d) for nm, d in v['dist'].items())
+                    newc[(v['first'], v['second'])] = v
+                m.c = newc
+                names = [mp.get(x, x) for x in names]
+                proc = [mp.get(x, x) for x in proc]
+                if arg is not None:
+                    arg = names if ch[3] % 4 == 1 else [g.block[x] for x in names]
+                self.ctx.probes['minc_twin_names'] += 1
         # precondition: generated matrix-block names are free and distinct (else minc refuses)
         new = [str(m) + n[len(str(m)):] for n in proc for m in range(1, nf)]
         if not proc:
@@ -686,8 +749,6 @@ class GridMachineBase(Machine):
         if len(set(new)) != len(new) or any(x in g.block for x in new):
             # generated matrix-block names collide: minc must refuse loudly, never build a
             # grid in which one block silently replaces another
-            if self.PHYSICS:
-                return False
             try:
                 g.minc(vf, spacing, npl, arg)
             except Exception:
@@ -804,6 +865,23 @@ class GridMachineBase(Machine):
         main = copy.deepcopy(g)
         host = main.block[hosts[ch[0] % len(hosts)].name]
         target = sub.blocklist[ch[3] % len(sub.blocklist)]
+        if ch[2] % 7 == 6 and len(sub.blocklist) > 1 and len(g.blocklist) > 1:
+            # a block of the subgrid carries the name of a block of the main grid (another object):
+            # embed() is documented to refuse (returns None) and both grids stay as they are
+            clash = [b for b in sub.blocklist if b is not target][0]
+            other = [b for b in main.blocklist if b is not host][ch[3] % (len(main.blocklist) - 1)]
+            old_name = clash.name
+            sub.rename_blocks({old_name: other.name}, fix_blocknames=False)
+            con = self.tg.t2connection([host, target], 1, [0.5, 0.25], 2.0, 0.0)
+            before = extract(main)
+            res = self.call(lambda: main.embed(sub, con), 'embed(shared block name)')
+            if res is not None:
+                raise Violation('I1.refused', 'embed() accepted a subgrid holding a block named '
+                                '%r like a block of the main grid' % other.name)
+            check_structure(main, getattr(self, 'alias_ok', None))
+            compare(before, extract(main), self.PHYSICS, False, 'refused embed: ')
+            self.ctx.probes['embed_refused_shared_name'] += 1
+            return 'refused'
         if ch[2] % 2:
             # the connection may name the host by a stand-in block object (embed re-binds the
             # connection's blocks by name)
